@@ -29,6 +29,10 @@ CONSTRUCTS = {
     "recursion": ('func zr(Signal p) {\n return zr(p) + 1;\n}\nSignal z1 = zr(1);', ["recurs", "zr"]),
     "indirect-recursion": ('func zr1(Signal p) {\n return zr2(p);\n}\nfunc zr2(Signal p) {\n return zr1(p);\n}\nSignal z1 = zr1(1);', ["recurs", "zr1", "zr2"]),
     "dup-bundle": ('Bundle zb = {("signal-A", 1), ("signal-A", 2)};', ["duplicate", "signal-a"]),
+    "dup-bundle-nested": ('Bundle zb = {("signal-A", 1), ("signal-B", 2)};\nBundle zq = {zb, ("signal-A", 3)};', ["duplicate", "signal-a"]),
+    "dup-bundle-nested-first": ('Bundle zb = {("signal-A", 1)};\nBundle zq = {("signal-A", 3), zb};', ["duplicate", "signal-a"]),
+    "dup-bundle-two-nested": ('Bundle zb = {("signal-A", 1)};\nBundle zc = {("signal-B", 2), ("signal-A", 5)};\nBundle zq = {zb, zc};', ["duplicate", "signal-a"]),
+    "dup-bundle-vars": ('Signal zs = ("signal-A", 1);\nSignal zt = ("signal-A", 2);\nBundle zq = {zs, zt};', ["duplicate", "signal-a"]),
     "bundle-op-bundle": ('Bundle zb = {("signal-A", 1)};\nBundle zc = {("signal-B", 1)};\nBundle zd = zb + zc;', ["bundle"]),
     "bare-bundle-cmp": ('Bundle zb = {("signal-A", 1)};\nSignal z1 = zb > 0;', ["bundle", "any", "all"]),
     "select-absent": ('Bundle zb = {("signal-A", 1)};\nSignal z1 = zb["signal-Z"] + 0;', ["signal-z"]),
